@@ -32,9 +32,27 @@ namespace
     };
     const Alphabet ALPHA_V1 = {0xA8, 0xB2, 0xC5, 0x8A, 0x2B, 0x5C};
     const Alphabet ALPHA_V0 = {0xAC, 0xAC, 0xAD, 0xAE, 0xAE, 0xAF};
-    enum { VAR_CFG_V1 = 0, VAR_CFG_V0 = 1, VAR_LEGACY = 2, VAR_N = 3 };
-    const char *VAR_NAME[] = {"configurable/v1-alphabet", "configurable/v0-alphabet(start==stop)", "legacy-c"};
-    const Alphabet &alpha_of(int v) { return v == VAR_CFG_V1 ? ALPHA_V1 : ALPHA_V0; }
+    // the configurable codec also runs with alphabets of the user's own (gstuff_context is a plain struct of six bytes): a printable one
+    // (all markers and codes below 0x80) and an HDLC-like one (start == stop, below 0x80)
+    const Alphabet ALPHA_PRINT = {'{', '}', '\\', '(', ')', '/'};
+    const Alphabet ALPHA_HDLC = {0x7E, 0x7E, 0x7D, 0x5E, 0x5E, 0x5D};
+    enum { VAR_CFG_V1 = 0, VAR_CFG_V0 = 1, VAR_LEGACY = 2, VAR_CFG_PRINT = 3, VAR_CFG_HDLC = 4, VAR_N = 5 };
+    const char *VAR_NAME[] = {"configurable/v1-alphabet", "configurable/v0-alphabet(start==stop)", "legacy-c", "configurable/printable-alphabet", "configurable/hdlc-like-alphabet(start==stop)"};
+    const Alphabet &alpha_of(int v) { return v == VAR_CFG_V1 ? ALPHA_V1 : v == VAR_CFG_PRINT ? ALPHA_PRINT : v == VAR_CFG_HDLC ? ALPHA_HDLC : ALPHA_V0; }
+    gstuff_context ctx_of(int v)
+    {
+        if (v == VAR_CFG_V1) return gstuff_context();
+        if (v == VAR_CFG_V0) return gstuff_context_v0();
+        const Alphabet &a = alpha_of(v);
+        gstuff_context c;
+        c.GSTUFF_START = (char)a.START;
+        c.GSTUFF_STOP = (char)a.STOP;
+        c.GSTUFF_STUB = (char)a.STUB;
+        c.GSTUFF_STUB_START = (char)a.C_START;
+        c.GSTUFF_STUB_STOP = (char)a.C_STOP;
+        c.GSTUFF_STUB_STUB = (char)a.C_STUB;
+        return c;
+    }
 
     uint8_t ref_crc8(const Bytes &b) // independent bitwise CRC-8, poly 0x31, init 0xFF, MSB first
     {
@@ -170,8 +188,7 @@ namespace
     };
     Rx *make_rx(int variant, int cap)
     {
-        if (variant == VAR_CFG_V1) return new RxCfg(gstuff_context(), cap);
-        if (variant == VAR_CFG_V0) return new RxCfg(gstuff_context_v0(), cap);
+        if (variant != VAR_LEGACY) return new RxCfg(ctx_of(variant), cap);
         return new RxLegacy(cap);
     }
 
@@ -192,7 +209,7 @@ namespace
             if (len < 0 || (size_t)len > maxout) violate("C04/frame-too-long", "legacy encoder returned %d for n=%zu", len, n);
             return Bytes((uint8_t *)out.get(), (uint8_t *)out.get() + len);
         }
-        gstuff_context ctx = variant == VAR_CFG_V0 ? gstuff_context_v0() : gstuff_context();
+        gstuff_context ctx = ctx_of(variant);
         // iovec partition from the plan's cut points
         std::vector<size_t> cp = {0};
         for (auto c : cuts) cp.push_back((size_t)mod(c, (int64_t)n + 1));
@@ -222,6 +239,33 @@ namespace
             if (first != want || again != want)
                 violate("C04/frame-bytes", "framing the same iovec array twice for the other link gives %s and then %s, the reference encoding is %s", hex(first).c_str(), hex(again).c_str(), hex(want).c_str());
             probe("same_iovec_framed_again");
+        }
+        if ((enc == ENC_VEC_BUF || enc == ENC_VEC_IOVEC) && n % 3 == 2)
+        {
+            // two results of the self-sizing encoders alive at the same time, bound by reference (no copy), and a frame tunnelled
+            // through a second link: the encoder's input is the previous result
+            const Alphabet &al = alpha_of(variant);
+            Bytes p2(p.rbegin(), p.rend());
+            p2.push_back(al.STUB);
+            std::unique_ptr<char[]> in2(new char[p2.size()]);
+            memcpy(in2.get(), p2.data(), p2.size());
+            struct iovec one;
+            one.iov_base = in2.get();
+            one.iov_len = p2.size();
+            const auto &f1 = enc == ENC_VEC_BUF ? gstuffing(igris::buffer(in.get(), n), ctx) : gstuffing_v(iov.data(), iov.size(), ctx);
+            const auto &f2 = enc == ENC_VEC_BUF ? gstuffing(igris::buffer(in2.get(), p2.size()), ctx) : gstuffing_v(&one, 1, ctx);
+            Bytes w1 = ref_encode(al, p), w2 = ref_encode(al, p2);
+            if (Bytes(f1.begin(), f1.end()) != w1 || Bytes(f2.begin(), f2.end()) != w2)
+                violate("C04/frame-bytes", "%s: two frames held at the same time: the first reads %s (reference %s), the second %s (reference %s)", VAR_NAME[variant], hex(Bytes(f1.begin(), f1.end())).c_str(),
+                        hex(w1).c_str(), hex(Bytes(f2.begin(), f2.end())).c_str(), hex(w2).c_str());
+            struct iovec tun;
+            tun.iov_base = (void *)f1.data();
+            tun.iov_len = f1.size();
+            const auto &outer = enc == ENC_VEC_BUF ? gstuffing(igris::buffer((const char *)f1.data(), f1.size()), ctx) : gstuffing_v(&tun, 1, ctx);
+            Bytes wo = ref_encode(al, w1);
+            if (Bytes(outer.begin(), outer.end()) != wo)
+                violate("C04/frame-bytes", "%s: a frame framed again (tunnelled) reads %s, reference %s", VAR_NAME[variant], hex(Bytes(outer.begin(), outer.end())).c_str(), hex(wo).c_str());
+            probe("two_results_alive");
         }
         switch (enc)
         {
@@ -1001,7 +1045,7 @@ namespace
                     uint64_t w = splitmix64(x);
                     for (size_t k = 0; k < 8 && i + k < n; k++) pl[i + k] = (uint8_t)(w >> (8 * k));
                 }
-                struct Job { const Bytes *pl; gstuff_context ctx; int enc; Bytes out; } job{&pl, variant == VAR_CFG_V0 ? gstuff_context_v0() : gstuff_context(), (int)mod(p.c(1), 2), {}};
+                struct Job { const Bytes *pl; gstuff_context ctx; int enc; Bytes out; } job{&pl, ctx_of(variant), (int)mod(p.c(1), 2), {}};
                 pthread_attr_t at;
                 pthread_attr_init(&at);
                 pthread_attr_setstacksize(&at, 8u << 20);
